@@ -23,7 +23,7 @@ func init() {
 	core.Register(&core.Check{
 		ID:    "C06",
 		Level: "model_checking",
-		Rule: "history tree over a live pool (int, float, str, two arrays, nested array, object, bear child, map with scalar and non-scalar keys, range, function, Either value, error wrapper): " +
+		Rule: "history tree over a live pool (int, float, str, two arrays, nested array, object, bear child, map with scalar and non-scalar keys, map with several non-scalar keys, range, function, Either value, error wrapper): " +
 			"depth 1 = every property reachable along the prototype chain of every pool value (discovered at run time) x {no argument, each of 10 arguments, 4 argument pairs, trailing function}, every infix operator over all ordered pool pairs, slices, unpacking, chains with chain argument; " +
 			"depth 2 (thorough 3) = all sequences over the container-producing core (~45 templates) whose operands range over the pool and over earlier results; incl. 8 operations whose callee keeps the argument array / [acc, elem] pair it was given (result compared with what each held when created; a value that contains itself is a violation); after every operation the deep fingerprint (Go pointer identity of elements/pairs/keys/bounds, payload, prototype) and Repr of every earlier value and the key lists of the built-in prototypes must be unchanged; " +
 			"states = histories, transitions = operations executed; non-trivial = operation that returned a value (not an error); distinct = distinct history",
@@ -44,6 +44,7 @@ a5 := [1, 2, 3, 4, 5]
 o := {a: 1, b: 2}
 ch := o.bear({c: 3})
 m := %{1: 2, "k": 4, [1]: 3}
+m2 := %{[1, 2]: "a", [3, 4]: "b", {x: 1}: "c", 5: 6, %{1: 2}: "d"}
 r := (1:3)
 f := {|x| x}
 nested := [a, o, [7, 8]]
@@ -60,9 +61,9 @@ dr := (1:4).A
 do := {z: 9, **o}
 `
 
-var poolVars = []string{"n", "fl", "s", "a", "a5", "o", "ch", "m", "r", "f", "nested", "e", "ew", "d3", "dk", "dv", "dm", "dc", "dr", "do"}
+var poolVars = []string{"n", "fl", "s", "a", "a5", "o", "ch", "m", "m2", "r", "f", "nested", "e", "ew", "d3", "dk", "dv", "dm", "dc", "dr", "do"}
 
-var poolKind = map[string]string{"n": "int", "fl": "float", "s": "str", "a": "arr", "a5": "arr", "o": "obj", "ch": "obj", "m": "map", "r": "range", "f": "func", "nested": "arr", "e": "either", "ew": "err",
+var poolKind = map[string]string{"n": "int", "fl": "float", "s": "str", "a": "arr", "a5": "arr", "o": "obj", "ch": "obj", "m": "map", "m2": "map", "r": "range", "f": "func", "nested": "arr", "e": "either", "ew": "err",
 	"d3": "arr", "dk": "arr", "dv": "arr", "dm": "arr", "dc": "arr", "dr": "arr", "do": "obj"}
 
 type tcase struct {
@@ -620,6 +621,15 @@ func coreOps(target string, vars []string) []string {
 		add(x + ".items")
 		add(x + ".keys")
 		add(x + "@(%{}){|k, v| [k, v]}")
+		// reads of a map: looking keys up (scalar, non-scalar, first/last/absent), asking, comparing, printing
+		for _, k := range []string{"[1]", "[1, 2]", "[3, 4]", "{x: 1}", "%{1: 2}", "5", "\"k\"", "[9]"} {
+			add(x + "[" + k + "]")
+			add(x + ".has?(" + k + ")")
+		}
+		add(x + " == " + x)
+		add(x + ".S")
+		add(x + ".values")
+		add(x + ".len")
 		for _, y := range maps {
 			add("%{**" + x + ", **" + y + "}")
 		}
